@@ -23,7 +23,7 @@ input, a returned slice outside the view's bytes.  The spec's accept/reject and 
 conformance only (DRIFT): the property does not fix WHICH inputs are rejected.
 
 Readings adopted: "safe accessor and mutator" = every pub fn callable without `unsafe`, including
-writes through `&mut [u8]` slices a safe accessor handed out; a hang is 20 s of CPU time on one
+writes through `&mut [u8]` slices a safe accessor handed out; a hang is 90 s of CPU time on one
 vector (not wall-clock, the machine may be loaded); TLC cannot observe memory - out-of-bounds
 accesses are observed by guard pages on exact-size copies (DESIGN.md section 9).
 """
@@ -146,7 +146,7 @@ def run(c):
     c.assumptions += [
         "memory accesses are observed by PROT_NONE guard pages directly before/after exact-size copies of the bytes a view reported (TLC cannot observe memory); reads inside the view's own bytes are by definition allowed",
         "the catalogue of safe functions is the hand-written list in harness/vh-sciparse/src/bin/wirelayout.rs (every pub fn of the *View types callable without unsafe at the pinned commit); ScmpUnknownMessageView::set_message_type is in the list only while a compile probe shows it is a safe fn",
-        "sequences: all accessors after no mutator on every accepted vector; after each single safe mutator (quick: on vectors not flagged `pairs` every 8th mutator, rotating with the vector index; thorough: all); after every ordered pair of safe mutators on the vectors flagged `pairs` (quick: a 300-sequence stride sample of the pair space per view and vector, rotating with the vector index; thorough: all pairs)",
+        "sequences: all accessors after no mutator on every accepted vector; after each single safe mutator (quick: on vectors not flagged `pairs` every 8th mutator, rotating with the vector index; thorough: all); after every ordered pair of safe mutators on the vectors flagged `pairs` (quick: a 300-sequence stride sample of the pair space per view and vector, rotating with the vector index; thorough: all pairs, plus a 3000-sequence stride sample of the mutator TRIPLES per view and vector)",
         "exhaustive over the factored product of MC_WireLayout, not over all byte strings; both cargo profiles (dev: debug assertions + overflow checks, release: none)",
     ]
     c.cov["rule"] = ("vectors: non-trivial = at least one view constructor accepted the byte string (the accessor/mutator catalogue ran); "
@@ -194,7 +194,7 @@ def run(c):
                 stats[prof + "_crashes"] += 1
                 cr = res["crash"]
                 c.violation(crash_key(cr), "[%s build] the child process %s while running %s on the %s view (%s, buffer %s) of vector %s" % (
-                    prof, "exceeded 20 s of CPU time" if cr.get("hang") else "was killed by %s" % SIGNAMES.get(cr.get("signal"), cr.get("signal")),
+                    prof, "exceeded 90 s of CPU time" if cr.get("hang") else "was killed by %s" % SIGNAMES.get(cr.get("signal"), cr.get("signal")),
                     cr.get("acc"), cr.get("view"), cr.get("stage"), cr.get("place"), json.dumps(vec["v"])), rep)
                 continue
             seen.add(i)
